@@ -1,11 +1,286 @@
 package main
 
+// Cluster mode: a REAL three-node raft cluster in one process.  Every node is assembled by the production code
+// with consensus = "raft" (raft.NewConsensusState: hashicorp/raft with bolt log/stable stores, file snapshots
+// and the SecretTCPTransport on loopback ports), the real EVM application on LevelDB, and the real leader loop
+// ConsensusState.run (started the way the blockchain reactor starts it: the SwitchToConsensus event).
+//
+// Scenario: blocks are produced until every node has applied `blocks` of them; the leader's node is shut down
+// (raft Shutdown, databases closed); the two remaining nodes elect a leader and produce `blocks` more; the
+// stopped node is assembled again on its directories -- hashicorp/raft delivers its log again from the start
+// (no snapshot yet), then the entries it missed -- and must catch up.
+//
+// Recorded per node: one event per FSM.Apply that executed a block (onUpdateState: height, block hash,
+// application hash).  Checked (the properties of RaftMode.tla on the recorded trace): per node the heights are
+// consecutive and no height is executed twice, across the restart too (AppliedOnceInOrder); all nodes executed
+// the same block and obtained the same application hash at the same height (Agreement); at the end store, state
+// and application of every node agree (HeightsAgree); the stored chain is linear.
+
 import (
+	"bytes"
+	"encoding/json"
+	"flag"
 	"fmt"
+	"io/ioutil"
+	"net"
 	"os"
+	"path/filepath"
+	"sync"
+	"time"
+
+	hraft "github.com/hashicorp/raft"
+
+	"github.com/dappledger/AnnChain/gemmill/state"
+	gtypes "github.com/dappledger/AnnChain/gemmill/types"
+
+	"verifharness/chainutil"
+	"verifharness/mbt"
 )
 
+type applyEv struct {
+	Node    int    `json:"node"`
+	Inc     int    `json:"inc"`
+	Height  int64  `json:"h"`
+	Block   string `json:"block"`
+	AppHash string `json:"app"`
+}
+
+type clusterOut struct {
+	Events   []applyEv              `json:"events"`
+	Leaders  []int                  `json:"leaders"`
+	Final    map[string]interface{} `json:"final"`
+	Failures []mbt.Failure          `json:"failures"`
+	Notes    []string               `json:"notes"`
+	WallS    float64                `json:"wall_s"`
+	Dups     int                    `json:"duplicate_height_entries"`
+}
+
+func freeAddrs(n int) []string {
+	var ls []net.Listener
+	var out []string
+	for i := 0; i < n; i++ {
+		l, err := net.Listen("tcp", "127.0.0.1:0")
+		if err != nil {
+			panic(err)
+		}
+		ls = append(ls, l)
+		out = append(out, l.Addr().String())
+	}
+	for _, l := range ls {
+		l.Close()
+	}
+	return out
+}
+
 func clusterMain(args []string) {
-	fmt.Fprintln(os.Stderr, "cluster mode not built yet")
-	os.Exit(2)
+	fs := flag.NewFlagSet("cluster", flag.ExitOnError)
+	blocks := fs.Int("blocks", 3, "blocks per phase")
+	timeout := fs.Int("timeout", 90, "seconds per phase")
+	noRestart := fs.Bool("norestart", false, "skip the leader stop / restart phases")
+	fs.Parse(args)
+	t0 := time.Now()
+	out := &clusterOut{Final: map[string]interface{}{}}
+	fail := func(key, detail string, prop bool) {
+		out.Failures = append(out.Failures, mbt.Failure{Action: "cluster", Kind: "property", Property: prop, Key: key, Detail: detail})
+	}
+	dir, err := ioutil.TempDir("", "rc")
+	if err != nil {
+		panic(err)
+	}
+	defer os.RemoveAll(dir)
+	const n = 3
+	var keys []*chainutil.Key
+	for i := 0; i < n; i++ {
+		keys = append(keys, chainutil.NewKey(fmt.Sprintf("raft-%d", i+1)))
+	}
+	gen := chainutil.Genesis(keys, []int64{1, 1, 1}, "")
+	addrs := freeAddrs(n)
+	var mu sync.Mutex
+	nodes := make([]*replica, n)
+	startNode := func(i int) error {
+		r := nodes[i]
+		if r == nil {
+			r = &replica{id: i + 1, key: keys[i], base: filepath.Join(dir, fmt.Sprintf("n%d", i+1)), gen: gen}
+			nodes[i] = r
+		}
+		var err error
+		if p, stk := mbt.Catch(func() { err = r.assemble(keys, addrs, addrs[i], "300ms") }); p != nil {
+			return fmt.Errorf("panic: %v\n%s", p, stk)
+		}
+		if err != nil {
+			return err
+		}
+		ang, inc := r.ang, r.inc
+		r.cs.SetOnUpdateStatus(func(st *state.State) {
+			mu.Lock()
+			out.Events = append(out.Events, applyEv{i + 1, inc, st.LastBlockHeight, hx(st.LastBlockID.Hash), hx(st.AppHash)})
+			mu.Unlock()
+			ang.UpdateStateMachine(st)
+		})
+		gtypes.FireEventSwitchToConsensus(ang.VerifAsmEvents()) // what the blockchain reactor fires when it is caught up
+		return nil
+	}
+	stopNode := func(i int) {
+		r := nodes[i]
+		r.release()
+	}
+	defer func() {
+		for i := range nodes {
+			if nodes[i] != nil && nodes[i].up {
+				stopNode(i)
+			}
+		}
+	}()
+	for i := 0; i < n; i++ {
+		if err := startNode(i); err != nil {
+			fail("raft:cluster-start", fmt.Sprintf("node %d: %v", i+1, err), false)
+			emitCluster(out, t0)
+			return
+		}
+	}
+	height := func(i int) int64 {
+		mu.Lock()
+		defer mu.Unlock()
+		h := int64(0)
+		for _, e := range out.Events {
+			if e.Node == i+1 && e.Height > h {
+				h = e.Height
+			}
+		}
+		return h
+	}
+	leader := func() int {
+		for i, r := range nodes {
+			if r != nil && r.up && r.cs.VerifRaft().State() == hraft.Leader {
+				return i
+			}
+		}
+		return -1
+	}
+	offer := func(h int64) {
+		for _, r := range nodes {
+			if r != nil && r.up {
+				for _, tx := range txsFor(h) {
+					r.app.GetTxPool().ReceiveTx(tx)
+				}
+			}
+		}
+	}
+	// produce until every node in `who` has applied height `target`
+	produce := func(who []int, target int64, phase string) bool {
+		dl := time.Now().Add(time.Duration(*timeout) * time.Second)
+		offered := int64(0)
+		for time.Now().Before(dl) {
+			min, max := int64(1<<62), int64(0)
+			for _, i := range who {
+				h := height(i)
+				if h < min {
+					min = h
+				}
+				if h > max {
+					max = h
+				}
+			}
+			if min >= target {
+				return true
+			}
+			if l := leader(); l >= 0 {
+				if len(out.Leaders) == 0 || out.Leaders[len(out.Leaders)-1] != l+1 {
+					out.Leaders = append(out.Leaders, l+1)
+				}
+				for offered < max+1 && offered < target {
+					offered++
+					offer(offered)
+				}
+			}
+			time.Sleep(20 * time.Millisecond)
+		}
+		hs := []int64{}
+		for i := range nodes {
+			hs = append(hs, height(i))
+		}
+		fail("raft:cluster-no-progress:"+phase, fmt.Sprintf("phase %s: heights %v after %ds, target %d (leader %d)", phase, hs, *timeout, target, leader()+1), true)
+		return false
+	}
+	ok := produce([]int{0, 1, 2}, int64(*blocks), "start")
+	if ok && !*noRestart {
+		l := leader()
+		if l < 0 {
+			l = 0
+		}
+		out.Notes = append(out.Notes, fmt.Sprintf("stopping node %d (leader) at height %d", l+1, height(l)))
+		stopNode(l)
+		rest := []int{}
+		for i := 0; i < n; i++ {
+			if i != l {
+				rest = append(rest, i)
+			}
+		}
+		ok = produce(rest, int64(2**blocks), "leader-stopped")
+		if ok {
+			if err := startNode(l); err != nil {
+				fail("raft:cluster-restart", fmt.Sprintf("node %d does not start again: %v", l+1, err), true)
+				ok = false
+			}
+		}
+		if ok {
+			ok = produce([]int{0, 1, 2}, int64(3**blocks), "restarted")
+		}
+	}
+	time.Sleep(300 * time.Millisecond)
+	// ---- judge the recorded trace
+	mu.Lock()
+	evs := append([]applyEv(nil), out.Events...)
+	mu.Unlock()
+	last := map[int]int64{}
+	at := map[int64]applyEv{}
+	for _, e := range evs {
+		if e.Height != last[e.Node]+1 {
+			fail("raft:cluster-not-consecutive", fmt.Sprintf("node %d (incarnation %d) executed height %d after height %d", e.Node, e.Inc, e.Height, last[e.Node]), true)
+		}
+		last[e.Node] = e.Height
+		if w, seen := at[e.Height]; !seen {
+			at[e.Height] = e
+		} else if w.Block != e.Block || w.AppHash != e.AppHash {
+			fail("raft:cluster-disagree", fmt.Sprintf("height %d: node %d executed block %s (app %s), node %d block %s (app %s)", e.Height, w.Node, w.Block, w.AppHash, e.Node, e.Block, e.AppHash), true)
+		}
+	}
+	for i, r := range nodes {
+		if r == nil || !r.up {
+			continue
+		}
+		var o obs
+		if p, _ := mbt.Catch(func() { o = r.observe() }); p != nil {
+			fail("raft:cluster-observe", fmt.Sprint(p), false)
+			continue
+		}
+		out.Final[fmt.Sprint(i+1)] = map[string]interface{}{"store": o.MStore, "descriptor": o.Desc, "state": o.StkH, "app": o.AppH}
+		if !(o.MStore == o.Desc && o.Desc == o.StkH && o.StkH == o.MStateH && o.AppH == o.StkH) && height(i) == o.StkH {
+			fail("raft:cluster-heights", fmt.Sprintf("node %d at rest: store %d/%d state %d/%d app %d", i+1, o.MStore, o.Desc, o.StkH, o.MStateH, o.AppH), true)
+		}
+		store := r.ang.VerifAsmStore()
+		var prev []byte
+		for h := int64(1); h <= o.Desc; h++ {
+			b := store.LoadBlock(h)
+			if b == nil {
+				fail("raft:cluster-block-missing", fmt.Sprintf("node %d: block %d not readable", i+1, h), true)
+				break
+			}
+			if h > 1 && !bytes.Equal(b.LastBlockID.Hash, prev) {
+				fail("raft:cluster-not-linear", fmt.Sprintf("node %d: block %d does not build on stored block %d", i+1, h, h-1), true)
+			}
+			if e, okk := at[h]; okk && e.Block != hx(b.Hash()) {
+				fail("raft:cluster-stored-differs", fmt.Sprintf("node %d stores %s at height %d, executed was %s", i+1, hx(b.Hash()), h, e.Block), true)
+			}
+			prev = b.Hash()
+		}
+	}
+	emitCluster(out, t0)
+}
+
+func emitCluster(out *clusterOut, t0 time.Time) {
+	out.WallS = time.Since(t0).Seconds()
+	os.Stdout = realStdout
+	b, _ := json.Marshal(out)
+	fmt.Println(string(b))
 }
